@@ -197,7 +197,7 @@ def check_value(p, v, col, via: str):
                           bucket=exc_bucket(ur))
             return
         ku, u = tl.call(ur, m)
-    if ku == "exc" and amb:
+    if ku == "exc" and amb and isinstance(u, ValueError):
         col.violation("union-fixpoint", case(), f"T={mat.root_expr} m={m!r:.200}: unmarshal(T, m) raised {tl.exc_name(u)}: {u}",
                       bucket="unmarshal-raises")
         return
